@@ -94,7 +94,7 @@ type tvOptions struct {
 	MaxSteps     int64
 	Explore      bool // use the schedule explorer (C03) instead of the sequential evaluator
 	MaxSchedules int
-	GoRuns       int // native runs (C03: outcome set)
+	GoRuns       int  // native runs (C03: outcome set)
 	PerPackage   bool // one goose invocation per package (a crash then costs one package only)
 }
 
